@@ -2,6 +2,7 @@
 import sys
 
 from sa import report, partial as P, rules_read as RD, rules_emit as RE
+from sa import rules_extra as RX
 
 
 def emitter_sites(J, s):
@@ -47,7 +48,9 @@ def run(ctx, repo):
     RE.r_tag_suffix_nonempty(ctx, repo)
     RE.r_breakset_agreement(ctx, repo, ['emitter'], exceptions={('write_double_quoted', '\x85\u2028\u2029')})
     ctx.assume('write_double_quoted: the always-escape literal omits LF on purpose, LF is excluded by the printable-range test of the same condition')
-
+    RX.r_event_cache_reset(ctx, repo)
+    RX.r_block_hint_leading(ctx, repo)
+    RX.r_emitter_doc_reset(ctx, repo)
 
 if __name__ == '__main__':
     sys.exit(report.main('C05', 'other', run))
